@@ -27,3 +27,32 @@ def script_items(chk, n, seed, maxlen=4):
         dia = "mysql" if any(d.dialect_of(s) == "mysql" for s in c["h"]) else "ansi"
         out.append({"sql": ";\n".join(d.render(s, dia) for s in c["h"]), "dialect": dia, "metadata": None, "origin": "Script.tla"})
     return out
+
+
+def col_items(chk, n, seed):
+    """single statements rendered from programs that TLC simulates from Col.tla (every statement kind, derived tables, UNION, scalar
+    subqueries, count(*), expression trees, metadata for the known tables)"""
+    from . import render_col
+    from .mods import c02
+    cfg = c02.cfg(chk, "inputs_col", Emit=True, MaxRels=3, MaxItems=3, MaxRefs=2, TAliases={"x", "y"}, SAliases={"u", "v"}, WithUnion=True,
+                  WithLiteral=True, WithForeign=True, WithMeta=True, invariants=["EmitCase"])
+    r = chk.tlc("Col", cfg, "inputs: simulated column-level programs", workers=1, coverage=False, simulate="num=%d" % max(50, n), depth=12, seed=seed)
+    rnd = random.Random(seed)
+    seen, out = set(), []
+    for c in r.cases("CASE"):
+        k = str(c["prog"])
+        if k in seen:
+            continue
+        seen.add(k)
+        if any(rf["r"] == 9 for it in c["prog"]["items"] for rf in it["refs"]):
+            continue        # a qualifier that names nothing in scope: the documented fallback invents a table, not a well-formed statement
+        try:
+            sql = render_col.render(c["prog"], form1="tree:%d" % rnd.randrange(1 << 30), form2="tree:%d" % rnd.randrange(1 << 30),
+                                    cte=rnd.choice([False, False, True, "aliased"]), scalar_form=rnd.choice(["plain", "func", "func2"]))
+        except Exception:  # noqa
+            continue
+        md = render_col.metadata_of(c["prog"])
+        out.append({"sql": sql, "dialect": "ansi", "metadata": md or None, "origin": "Col.tla"})
+        if len(out) >= n:
+            break
+    return out
